@@ -125,6 +125,19 @@ def run(prog: Program, res: Result) -> None:
                     res.ob(False)
                     res.add(Finding(P, "C08.R2-global-state", construct_key(prog, n, fi.module), f"{fi.module.relpath}:{n.lineno}",
                                     f"{fi.qualname} stores into self.__class__.{n.attr}"))
+    # class-level mutable defaults mutated through self: one object for every instance and every run
+    from ..shared_state import class_level_shared
+    n_cls = 0
+    for ci in prog.classes.values():
+        if not prog.is_subclass(ci, ABSTRACT):
+            continue
+        n_cls += 1
+        for (attr, node, hit, m) in class_level_shared(prog, ci):
+            res.ob(False)
+            res.add(Finding(P, "C08.R2-global-state", f"{ci.name}::{attr}", f"{ci.module.relpath}:{node.lineno}",
+                            f"{ci.name}.{attr} is a class-level mutable object that {m.name}() changes in place (`{norm(hit, 50)}`): "
+                            f"it is shared by all instances and survives every run"))
+    res.count("optimizer-classes-scanned-for-shared-state", n_cls)
     res.ob(True, "R2: no global statement / class-attribute store in the package", "R2")
 
 
